@@ -5403,6 +5403,11 @@ class Parameterized(metaclass=ParameterizedMetaclass):
         # has overriden the default of the `name` Parameter.
         if self.param.name.default == self.__class__.__name__:
             self.param._generate_name()
+        else:
+            # ... but the constant `name` is still referenced on the instance
+            # like any other constant: reassigning the class default later
+            # must not rename the instances that already exist.
+            self.param._set_name(self.param.name.default)
         refs, deps = self.param._setup_params(**params)
         object_count += 1
 
